@@ -538,15 +538,16 @@ impl ErasedNode for Node {
         - set [node]'s height.
         - add [node] to the recompute heap, if necessary. */
         state.set_height(self.packed(), self.created_in.height() + 1);
-        let h = &Cell::new(self.height());
         let pdyn = self.as_parent_dyn_ref();
         self.foreach_child(&mut move |index, child| {
             child.add_parent_without_adjusting_heights(index, pdyn, state);
-            if child.height() >= h.get() {
-                h.set(child.height() + 1);
+            /* Compare with our height as it is now, and only ever raise it: linking a later child
+            can adjust the heights of an earlier one and, through it, ours (we are already
+            registered as its parent), and that must not be undone. */
+            if child.height() >= self.height() {
+                state.set_height(self.packed(), child.height() + 1);
             }
         });
-        state.set_height(self.packed(), h.get());
         if let Some(Kind::BindLhsChange { bind }) = self.kind() {
             /* Nodes created by the previous run of this bind may have stayed necessary on their
             own (observed directly) while the bind was not, and the bind's input may have grown
